@@ -14,6 +14,35 @@ CHECKS = {
              "(dashmap) and unsafe allocation code unverified; one open finding (fast_decrement with a pending queue entry).",
         technique="contract-based deductive verification: Kani function contracts + contract harnesses on the real crate (CBMC), rely/guarantee stubs for the shared word",
     ),
+    "C10": dict(
+        category="proof",
+        text="Contracts on the numeric kernels of steel-core (add_two, multiply_two, negate, abs, the 12 quotient/remainder procedures, "
+             "arithmetic-shift, canonicalisation impls, number_equality, PartialOrd numeric arms), extracted verbatim each run and checked by Kani "
+             "against mathematical-integer specs over the full fixnum / flonum domain (loop-free => complete); bignum arms relative to an exact "
+             "128-bit model of num-bigint; exact division results only on a boundary table (bounded, reported separately).",
+        design_ref="DESIGN.md section 3, C10",
+        note="Prelude (reduced SteelVal, Gc, BigInt model, message-less error macros) is trusted; rational/complex arms, expt, sqrt, "
+             "number<->string, VM-inlined opcode arms and JIT fast paths are not covered; two open findings.",
+        technique="contract-based deductive verification: verbatim extraction of real functions + Kani contract harnesses (CBMC), full input domains",
+    ),
+    "C07": dict(
+        category="proof",
+        text="Panic-freedom contracts for the numeric built-ins: for operands of every scalar kind and magnitude each procedure returns Ok or Err "
+             "(Rust overflow/division/shift/unwrap/unreachable checks are MIR assertions Kani proves unreachable); type mismatches and zero "
+             "divisors are error values.",
+        design_ref="DESIGN.md section 3, C07",
+        note="Only the numeric built-ins; arbitrary source text, native stack depth, engine state after errors, collection arguments are not covered.",
+        technique="contract-based deductive verification: panic-freedom obligations on verbatim-extracted functions (Kani/CBMC)",
+    ),
+    "C20": dict(
+        category="proof",
+        text="Contracts on the integer/float/char/bool/unit/option conversion impls at the host boundary (macro-generated impls instantiated "
+             "textually): Ok(r) implies r equals the script value, out-of-range or mistyped values are ConversionErrors, into/from round trips, "
+             "for every value of every supported integer width.",
+        design_ref="DESIGN.md section 3, C20",
+        note="Containers, strings, registered structs, RegisterFn arity wrappers and lent references are not covered.",
+        technique="contract-based deductive verification: verbatim extraction + Kani contract harnesses (CBMC), full input domains",
+    ),
 }
 
 NOT_APPLICABLE = {
